@@ -75,6 +75,9 @@ type Value struct {
 	Elem   *Value   `json:"elem,omitempty"`  // pointer target, interface content
 	Items  []*Value `json:"items,omitempty"` // slice elements, struct field values (in Fields order), map values (Keys order)
 	Keys   []string `json:"keys,omitempty"`  // map keys
+	// Share: non-nil pointers with the same non-empty Share are one Go pointer
+	// within one built value / data map (the first one met defines the target)
+	Share string `json:"share,omitempty"`
 }
 
 func IntOf(kind string, i int64) *Value { return &Value{T: T(kind), I: i} }
@@ -205,7 +208,11 @@ func GoType(t *Type) reflect.Type {
 }
 
 // Build makes the Go value.
-func Build(v *Value) reflect.Value {
+func Build(v *Value) reflect.Value { return (&builder{}).build(v) }
+
+type builder struct{ shared map[string]reflect.Value }
+
+func (b *builder) build(v *Value) reflect.Value {
 	rt := GoType(v.T)
 	rv := reflect.New(rt).Elem()
 	switch v.T.K {
@@ -221,19 +228,31 @@ func Build(v *Value) reflect.Value {
 		rv.SetString(v.Str())
 	case TAny:
 		if !v.Nil && v.Elem != nil {
-			rv.Set(Build(v.Elem))
+			rv.Set(b.build(v.Elem))
 		}
 	case TPtr:
 		if !v.Nil {
+			if v.Share != "" {
+				if p, ok := b.shared[v.Share]; ok && p.Type() == rt {
+					rv.Set(p)
+					break
+				}
+			}
 			p := reflect.New(rt.Elem())
-			p.Elem().Set(Build(v.Elem))
+			p.Elem().Set(b.build(v.Elem))
 			rv.Set(p)
+			if v.Share != "" {
+				if b.shared == nil {
+					b.shared = map[string]reflect.Value{}
+				}
+				b.shared[v.Share] = p
+			}
 		}
 	case TSlice:
 		if !v.Nil {
 			s := reflect.MakeSlice(rt, len(v.Items), len(v.Items))
 			for i, it := range v.Items {
-				s.Index(i).Set(Build(it))
+				s.Index(i).Set(b.build(it))
 			}
 			rv.Set(s)
 		}
@@ -241,7 +260,7 @@ func Build(v *Value) reflect.Value {
 		if !v.Nil {
 			m := reflect.MakeMapWithSize(rt, len(v.Keys))
 			for i, k := range v.Keys {
-				m.SetMapIndex(reflect.ValueOf(k), Build(v.Items[i]))
+				m.SetMapIndex(reflect.ValueOf(k), b.build(v.Items[i]))
 			}
 			rv.Set(m)
 		}
@@ -250,7 +269,7 @@ func Build(v *Value) reflect.Value {
 			return fixedTypes[v.T.Fixed].build(v)
 		}
 		for i, it := range v.Items {
-			rv.Field(i).Set(Build(it))
+			rv.Field(i).Set(b.build(it))
 		}
 	case TChan:
 		rv.Set(reflect.ValueOf(make(chan int)))
@@ -264,11 +283,13 @@ func Build(v *Value) reflect.Value {
 }
 
 // BuildAny returns the Go value as an interface (nil for a nil interface).
-func BuildAny(v *Value) any {
+func BuildAny(v *Value) any { return (&builder{}).buildAny(v) }
+
+func (b *builder) buildAny(v *Value) any {
 	if v.T.K == TAny && (v.Nil || v.Elem == nil) {
 		return nil
 	}
-	return Build(v).Interface()
+	return b.build(v).Interface()
 }
 
 // Data is a data map in spec form (ordered by Keys for determinism).
@@ -307,8 +328,9 @@ func (d *Data) GoMap() map[string]any {
 		return nil
 	}
 	m := make(map[string]any, len(d.Keys))
+	b := &builder{}
 	for i, k := range d.Keys {
-		m[k] = BuildAny(d.Vals[i])
+		m[k] = b.buildAny(d.Vals[i])
 	}
 	return m
 }
